@@ -1067,7 +1067,15 @@ func (e *Enc) edge(fr *Frame, ins map[*ssa.BasicBlock][]edgeIn, from, to *ssa.Ba
 		return
 	}
 	if li := fr.loops[to]; li != nil && to.Dominates(from) {
-		// back edge: check invariants
+		// back edge: per-iteration obligations, then the invariants
+		if c := e.w.contractFor(fr.fn); c != nil && len(c.LoopStep[li.ord]) > 0 {
+			env := e.specEnv(fr, st, from)
+			env.atEnd = true
+			for _, cl := range c.LoopStep[li.ord] {
+				st2 := st.clone()
+				e.specOblige(st2, fmt.Sprintf("loop%d-step", li.ord), cl.E, env, cl.Src, cl.Props)
+			}
+		}
 		e.checkLoopInv(fr, li, from, st, "preserve")
 		return
 	}
